@@ -32,6 +32,10 @@ pub enum Op {
     FromHexRaw(String),
     AllFunctionsNth(usize),
     FromInt(u64),
+    /// Lut::from(&Sop / &Esop / &Soes) of a generated form (then converted to the family's type)
+    FromSop(Vec<crate::sopx::CB>),
+    FromEsop(Vec<crate::sopx::CB>),
+    FromSoes(Vec<crate::sopx::EB>),
     // unary a -> dst
     Clone,
     Not(usize),
@@ -188,6 +192,33 @@ fn exec_inner(fam: Fam, n: usize, slots: &[T], st: &Step) -> (Outcome, Option<T>
             Some(t) => tab(t),
             None => (Outcome::Opaque, None),
         },
+        Op::FromSop(cs) | Op::FromEsop(cs) => {
+            let cubes: Vec<volute::sop::Cube> = cs.iter().map(|c| c.build()).collect();
+            let l = if matches!(st.op, Op::FromSop(_)) {
+                volute::Lut::from(&volute::sop::Sop::from_cubes(n, cubes))
+            } else {
+                volute::Lut::from(volute::sop::Esop::from_cubes(n, cubes))
+            };
+            let d: T = Box::new(crate::adapter::W(l));
+            match fam {
+                Fam::Dyn => tab(d),
+                Fam::Static => match d.convert(n) {
+                    Ok(t) => tab(t),
+                    Err(()) => (Outcome::ParseErr, None),
+                },
+            }
+        }
+        Op::FromSoes(ts) => {
+            let l = volute::Lut::from(&volute::sop::Soes::from_cubes(n, ts.iter().map(|t| t.build()).collect()));
+            let d: T = Box::new(crate::adapter::W(l));
+            match fam {
+                Fam::Dyn => tab(d),
+                Fam::Static => match d.convert(n) {
+                    Ok(t) => tab(t),
+                    Err(()) => (Outcome::ParseErr, None),
+                },
+            }
+        }
         Op::Clone => tab(a.dup()),
         Op::Not(form) => tab(a.not_form(*form)),
         Op::Flip(i, inplace) => {
@@ -440,6 +471,10 @@ pub fn arb_op(n: usize, fam: Fam, o: OpOptions) -> BoxedStrategy<Op> {
         v.push((1, Just(Op::NCanon).boxed()));
         v.push((1, Just(Op::NpnCanon).boxed()));
     }
+    // conversions from two-level forms (non-contradictory cubes over the n variables)
+    v.push((1, crate::sopx::arb_cube_list(n, 4).prop_map(Op::FromSop).boxed()));
+    v.push((1, crate::sopx::arb_cube_list(n, 4).prop_map(Op::FromEsop).boxed()));
+    v.push((1, vec(crate::sopx::arb_eb(n), 0..=4).prop_map(Op::FromSoes).boxed()));
     if o.random {
         v.push((3, Just(Op::Random).boxed()));
     }
